@@ -210,8 +210,10 @@ def r2_conversion(ctx, F):
     cv = [c for c in live_calls(b) if c.name == "convert_entry"]
     texts = sorted((vf.render(v.call_args(c)[1], b, short=True), vf.render(v.call_args(c)[2], b, short=True)) for c in cv)
     ctx.check("R2-conversion", "lookup_pseudo/pseudo", any(t[0] == "VfsInode::fs_idx(idata)" for t in texts), "lookup_pseudo: plain pseudo entries are not converted with the pseudo index: %s" % texts, loc=b.loc())
-    ctx.check("R2-conversion", "lookup_pseudo/crossing", any(t[0].endswith(".fs_idx") and t[1].endswith(".ino") for t in texts),
-              "lookup_pseudo: a mount point is not answered with the mount's index and root inode: %s" % texts, loc=b.loc(), detail=str(texts))
+    # a mount point is answered with the stored (already converted) root entry of the mount
+    r = vf.render(v.ret(), b, short=True, vfx=v)
+    ctx.check("R2-conversion", "lookup_pseudo/crossing", ".root_entry)" in r and "=> Ok(" in r,
+              "lookup_pseudo: a mount point is not answered with the mount's root entry: %s" % r[:300], loc=b.loc())
     ctx.floor("R2-conversion", 25)
 
 
@@ -341,6 +343,7 @@ def r5_slots(ctx, F, pid="C07"):
         st = [c for c in live_calls(b) if c.name == "store" and "arc_swap" in (c.fn or "")]
         v = vf.VF(b, inline_depth=0)
         order = [vf.render(v.call_args(c)[0], b, short=True) for c in st]
+        order = [x for x in order if x in ("self.superblocks", "self.mountpoints")]
         ctx.check(rule, "publish-order", order == ["self.superblocks", "self.mountpoints"],
                   "insert_mount_locked publishes %s; the superblock must be stored before the mount point" % order, loc=b.loc())
         # umount: slot emptied (take) and backend destroyed
@@ -368,6 +371,11 @@ def r5_slots(ctx, F, pid="C07"):
     ctx.check(rule, "mount/slot-mapping-always-set", ok,
               "mount_with_id_mapping allocates slot `%s` but stores its id mapping only conditionally: an unmapped mount inherits the "
               "mapping of the slot's previous occupant" % idx_arg, loc=(mw[0][3].loc() if mw else b.loc()))
+    # (a') the mapping stored for the new occupant is not overwritten while the mount is inserted
+    b2, w2, v2 = writers["insert_mount_locked"]
+    clobber = [x for x in w2 if x[0] == "mount_id_mappings" and x[1] == "fs_idx"]
+    ctx.check(rule, "insert/keeps-new-mapping", not clobber,
+              "insert_mount_locked overwrites mount_id_mappings[fs_idx], the mapping just stored for the mount being inserted", loc=(clobber[0][3].loc() if clobber else b2.loc()))
     # (b) every superblocks[k] := None has a mount_id_mappings[k] := None under the same guards
     for nm in ("insert_mount_locked", "umount"):
         b, w, v = writers[nm]
@@ -376,7 +384,8 @@ def r5_slots(ctx, F, pid="C07"):
                 continue        # the new occupant: covered by (a)
             partner = [y for y in w if y[0] == "mount_id_mappings" and y[1] == x[1]]
             ok = any(True for y in partner)
-            ctx.check(rule, "%s/vacate[%s]" % (nm, x[1]), ok,
+            label = "overmounted.fs_idx" if "mountpoints" in x[1] else x[1]
+            ctx.check(rule, "%s/vacate[%s]" % (nm, label), ok,
                       "Vfs::%s vacates superblocks[%s] but leaves mount_id_mappings[%s]: the next mount in that slot inherits the stale mapping" % (nm, x[1], x[1]),
                       loc=x[3].loc())
 
